@@ -7,7 +7,7 @@ import shlex
 
 from .common import CONTRACTS
 
-_KV = re.compile(r'(\w+)=("(?:[^"\\]|\\.)*"|\S+)')
+_KV = re.compile(r'(\w+)=("(?:[^"\\]|\\.)*"|\S*)')
 
 
 class Obligation:
